@@ -12,6 +12,15 @@ cbreq[i mod len]: stat / lstat / listdir / stat of the transfer's own remote fil
 nothing), and a pwrite program may issue such requests between its write()s ("between", same alphabet plus
 set_pipelined(False/True) switches).  Whoever waits for its own reply reads the replies queued before it - those of
 the transfer's pipelined writes and prefetched reads included.
+History on one file object (round 3): the "between" alphabet of a pwrite program also has the non-write operations
+of the SFTPFile itself - stat(), seek(0, SEEK_END), the size idiom (tell / seek to the end / tell / seek back),
+seek(0, SEEK_CUR), seek(tell()), tell(), flush(), chmod(), utime(), truncate(tell()) - all of which leave the bytes
+and the position of a fault-free upload untouched, so the oracle is unchanged.
+Reply order (round 3): SFTP lets a server answer outstanding requests in any order.  A case may carry "reorder", a
+list of holds [k, d]: the k-th reply of the session (k = "fault": the reply to the request the fault plan hit) is held
+back by the server and delivered after d later replies have gone out - or, like any reply a real server owes, when the
+server has nothing else to do (no request arrives for REORDER_GRACE_S).  Only the ORDER of complete reply packets
+changes; every reply is delivered (see ReorderChan).
 
 Oracle (the statement, nothing more):
   * the call returns  =>  destination bytes == source bytes; put/putfo with confirm return
@@ -42,11 +51,14 @@ THOROUGH_WORKERS = 16
 RULE = (
     "cases = (operation put/putfo/get/getfo/pwrite, size 0..1 MiB dense at multiples of 32768 and 8192 +-1, "
     "confirm, callback (none | recording | issuing requests of its own on the same client at generated invocations: stat, lstat, listdir, "
-    "stat of the transfer's remote file, open+close of another file), pwrite: such requests and set_pipelined switches between the write()s, "
+    "stat of the transfer's remote file, open+close of another file), pwrite: such requests, set_pipelined switches and the file object's own "
+    "non-write operations (stat, seek to the end, size idiom, seek cur/set, tell, flush, chmod, utime, truncate at the position) between the write()s, "
+    "reply order = in request order | generated holds (k-th reply, or the reply to the faulted request, delivered after d later replies / when the server is idle), "
     "prefetch, max_concurrent_prefetch_requests, short local source reads, fault plan = "
     "k-th WRITE/READ request (or every request) answered with SFTP error code 1..8 (reads: 2..8) or a short read); "
     "hypothesis-sampled, plus an enumeration of every single failing chunk position x every code for files of 1..N "
-    "chunks (N=3 quick, 8 thorough, sharded over the workers). non-trivial = the fault plan was actually hit "
+    "chunks (N=3 quick, 8 thorough, sharded over the workers), each position also with the faulted reply overtaken by 1..N later replies and "
+    "with one file operation after each write(). non-trivial = the fault plan was actually hit "
     "(server log shows the faulted request) ; distinct = SHA-1 of the case"
 )
 
@@ -60,7 +72,11 @@ SIG_CONSUMED = ("rejected-write-not-reported", "reply-read-by-interleaved-reques
 
 # requests a progress callback / the application issues on the same client while a transfer is under way
 CB_KINDS = ["none", "stat", "lstat", "listdir", "statself", "openclose"]
-BETWEEN_KINDS = CB_KINDS + ["setpipe0", "setpipe1"]
+# non-write operations of the SFTPFile being written (they keep content and position of a fault-free upload)
+FILE_OPS = ["fstat", "seek_end", "sizeidiom", "seek_cur0", "seek_set", "tell", "flush", "fchmod", "futime", "ftruncate"]
+BETWEEN_KINDS = CB_KINDS + ["setpipe0", "setpipe1"] + FILE_OPS
+# a held reply is delivered at the latest when no request has arrived for this long (the client is waiting)
+REORDER_GRACE_S = 0.03
 
 
 def _content(seed, size):
@@ -75,6 +91,7 @@ class Plan:
     def __init__(self, fault):
         self.fault = fault
         self.hits = 0
+        self.on_hit = None  # called (in the server thread) when a request is faulted, before its reply is sent
 
     def _act(self, d, n):
         f = self.fault
@@ -83,6 +100,8 @@ class Plan:
         if f[1] != -1 and f[1] != n:
             return None
         self.hits += 1
+        if self.on_hit is not None:
+            self.on_hit()
         return (f[2], f[3])
 
     def on_write(self, handle, n, offset, data):
@@ -103,6 +122,108 @@ class ShortSource:
         if n is None or n < 0:
             n = self._m
         return self._b.read(min(n, self._m))
+
+
+def _reorder_chan_class():
+    import select
+    import struct
+
+    from vlib.sftpenv import ChanLike
+
+    class ReorderChan(ChanLike):
+        """Server end of the link for a server that answers out of order.  The production SFTPServer still PROCESSES
+        the requests one after the other; this layer cuts its output into SFTP packets (uint32 length + body) and
+        delivers some of them later than it was handed them.  holds: {reply index: d}; fault_d: d for the reply that
+        follows `mark_fault()`.  A held reply goes out after d later replies went out, or as soon as the server finds
+        nothing to read for `grace` seconds (every request is answered without the client having to do anything)."""
+
+        def _setup(self, holds, fault_d, grace):
+            self._holds = dict(holds)
+            self._fault_d = fault_d
+            self._grace = grace
+            self._mark = False
+            self._n = 0
+            self._held = []  # [packet, replies still to let pass, reply index, overtaken by, is fault reply]
+            self._buf = b""
+            self.order_log = []  # (reply index, overtaken by n later replies, "count"/"idle", is fault reply)
+
+        def mark_fault(self):
+            self._mark = True
+
+        def send(self, data):
+            self._buf += data
+            self.sent += len(data)
+            while len(self._buf) >= 4:
+                (n,) = struct.unpack(">I", self._buf[:4])
+                if len(self._buf) < 4 + n:
+                    break
+                pkt, self._buf = self._buf[: 4 + n], self._buf[4 + n :]
+                self._reply(pkt)
+            return len(data)
+
+        def sendall(self, data):
+            self.send(data)
+
+        def _reply(self, pkt):
+            i = self._n
+            self._n += 1
+            d = self._holds.get(i)
+            fault = self._mark
+            self._mark = False
+            if fault and self._fault_d:
+                d = self._fault_d
+            if d:
+                self._held.append([pkt, d, i, 0, fault])
+                return
+            self._s.sendall(pkt)
+            for h in self._held:
+                h[1] -= 1
+                h[3] += 1
+            due = [h for h in self._held if h[1] <= 0]
+            self._held = [h for h in self._held if h[1] > 0]
+            for h in due:
+                # (logged first: the client may end the session while this is on its way)
+                self.order_log.append((h[2], h[3], "count", h[4]))
+                self._s.sendall(h[0])
+
+        def _flush(self):
+            held, self._held = self._held, []
+            for h in held:
+                self.order_log.append((h[2], h[3], "idle", h[4]))
+                self._s.sendall(h[0])
+
+        def recv(self, n):
+            if self._held:
+                try:
+                    r, _, _ = select.select([self._s], [], [], self._grace)
+                except (OSError, ValueError):
+                    r = [1]
+                if not r:
+                    self._flush()
+            return ChanLike.recv(self, n)
+
+    return ReorderChan
+
+
+_ReorderChan = [None]
+
+
+def install_reorder(schan, plan, reorder):
+    """Turn the server end of a running session into a ReorderChan (only harness objects are touched: the server
+    thread is parked in ChanLike.recv of this very object and picks the new methods up with its next call)."""
+    if _ReorderChan[0] is None:
+        _ReorderChan[0] = _reorder_chan_class()
+    cls = _ReorderChan[0]
+    holds, fault_d = {}, None
+    for k, d in reorder:
+        if k == "fault":
+            fault_d = int(d)
+        else:
+            holds[int(k)] = int(d)
+    cls._setup(schan, holds, fault_d, REORDER_GRACE_S)
+    schan.__class__ = cls
+    plan.on_hit = schan.mark_fault
+    return schan
 
 
 _counter = [0]
@@ -145,6 +266,8 @@ def _norm(case):
         c["cbreq"] = [str(k) for k in case["cbreq"]]
     if case.get("between"):
         c["between"] = [str(k) for k in case["between"]]
+    if case.get("reorder"):
+        c["reorder"] = [[k if k == "fault" else int(k), max(1, int(d))] for k, d in case["reorder"]]
     f = case.get("fault")
     if f is not None:
         c["fault"] = [f[0], int(f[1]), f[2], int(f[3])]
@@ -165,7 +288,7 @@ def execute(ctx, case, _attempt=0):
     os.makedirs(local)
     plan = Plan(case["fault"])
     cb_calls = []
-    other = {"n": 0, "kinds": set()}  # requests issued by the callback / between the writes
+    other = {"n": 0, "kinds": set(), "fileops": set()}  # requests issued by the callback / between the writes
     remote_self = "/src" if op in ("get", "getfo") else "/dst"
     with open(os.path.join(root, "aux"), "wb") as f:
         f.write(b"aux")
@@ -177,6 +300,34 @@ def execute(ctx, case, _attempt=0):
         if kind == "setpipe0" or kind == "setpipe1":
             fobj.set_pipelined(kind == "setpipe1")
             other["kinds"].add(kind)
+            return
+        if kind in FILE_OPS:
+            other["fileops"].add(kind)
+            if kind == "fstat":
+                fobj.stat()
+            elif kind == "seek_end":
+                fobj.seek(0, fobj.SEEK_END)
+            elif kind == "sizeidiom":
+                pos = fobj.tell()
+                fobj.seek(0, fobj.SEEK_END)
+                fobj.tell()
+                fobj.seek(pos)
+            elif kind == "seek_cur0":
+                fobj.seek(0, fobj.SEEK_CUR)
+            elif kind == "seek_set":
+                fobj.seek(fobj.tell())
+            elif kind == "tell":
+                fobj.tell()
+            elif kind == "flush":
+                fobj.flush()
+            elif kind == "fchmod":
+                fobj.chmod(0o644)
+            elif kind == "futime":
+                fobj.utime((1000000000, 1000000001))
+            elif kind == "ftruncate":
+                fobj.truncate(fobj.tell())
+            else:
+                raise AssertionError(kind)
             return
         other["n"] += 1
         other["kinds"].add(kind)
@@ -246,6 +397,9 @@ def execute(ctx, case, _attempt=0):
         raise AssertionError(op)
 
     cchan, schan, sth, _server = env._sessions[0]
+    reorder = case.get("reorder") or []
+    if reorder:
+        install_reorder(schan, plan, reorder)
     try:
         # "blocks" = proven deadlock (both ends parked in recv on a drained link) or BOUND_S without return
         proof = W.deadlock_proof(cchan, schan, sth, baseline)
@@ -298,6 +452,27 @@ def execute(ctx, case, _attempt=0):
         classes.append("interleaved-requests:" + ("callback" if cbreq else "between-writes"))
         if hit:
             classes.append("fault-hit-in-a-transfer-with-interleaved-requests")
+    classes.extend("file-op-between-writes:" + k for k in sorted(other["fileops"]))
+    if other["fileops"] and hit:
+        classes.append("fault-hit-on-a-file-with-other-file-operations")
+    order_log = list(getattr(schan, "order_log", [])) if reorder else []
+    if reorder:
+        # replies the server still owed when the client ended the session (the server thread has been joined)
+        order_log += [(h[2], h[3], "undelivered-at-session-end", h[4]) for h in getattr(schan, "_held", [])]
+    out_of_order = [e for e in order_log if e[1] > 0]
+    fault_late = [e for e in out_of_order if e[3]]
+    if reorder:
+        classes.append("reply-order:holds-planned")
+        if out_of_order:
+            classes.append("reply-order:delivered-out-of-order")
+            classes.append("reply-order:overtaken-by-%s" % ("1" if max(e[1] for e in out_of_order) == 1 else "2+"))
+            classes.append("reply-order:out-of-order:" + op)
+        elif order_log:
+            classes.append("reply-order:held-reply-delivered-at-idle-in-order")
+        if fault_late:
+            classes.append("reply-order:faulted-reply-overtaken:" + fkind)
+    else:
+        classes.append("reply-order:request-order")
     ctx.case(case, hit, classes)
 
     try:
@@ -332,21 +507,20 @@ def execute(ctx, case, _attempt=0):
                 case["fault"],
                 env.server_log[-4:],
             )
+            if out_of_order:
+                detail += "; replies delivered out of order (reply index, overtaken by, released by, faulted): %r" % (order_log,)
+            if other["fileops"]:
+                detail += "; file operations between the writes: %s" % ", ".join(sorted(other["fileops"]))
             if rejected_write:
                 if other["n"]:
                     detail += "; %d other requests (%s) were issued on the same client during the transfer" % (other["n"], ", ".join(sorted(other["kinds"])))
-                    ctx.violation(SIG_CONSUMED[0], SIG_CONSUMED[1], case, detail)
-                else:
-                    ctx.violation(SIG_DROPPED[0], SIG_DROPPED[1] if case["pipelined"] else "non-pipelined-file", case, detail)
+                ctx.violation(SIG_DROPPED[0], _lost_bucket(case, other, out_of_order), case, detail)
             else:
-                ctx.violation("silent-corruption", "%s:%s:prefetch=%s" % (op, fkind, case["prefetch"]), case, detail)
+                ctx.violation("silent-corruption", "%s:%s:prefetch=%s%s" % (op, fkind, case["prefetch"], ":replies-out-of-order" if out_of_order else ""), case, detail)
             return
         if op == "pwrite" and rejected_write:
             # same bytes by luck is impossible here (a rejected write leaves a hole), kept for completeness
-            if other["n"]:
-                ctx.violation(SIG_CONSUMED[0], SIG_CONSUMED[1], case, "write rejected but close() returned")
-            else:
-                ctx.violation(SIG_DROPPED[0], SIG_DROPPED[1] if case["pipelined"] else "non-pipelined-file", case, "write rejected but close() returned")
+            ctx.violation(SIG_DROPPED[0], _lost_bucket(case, other, out_of_order), case, "write rejected but close() returned")
             return
         if op in ("put", "putfo") and case["confirm"]:
             if getattr(value, "st_size", None) != len(src):
@@ -357,6 +531,17 @@ def execute(ctx, case, _attempt=0):
             return
     finally:
         shutil.rmtree(base, ignore_errors=True)
+
+
+def _lost_bucket(case, other, out_of_order):
+    """Bucket of "rejected-write-not-reported": which part of the history the case needs (shrinking removes the rest)."""
+    if out_of_order:
+        return "replies-delivered-out-of-order"
+    if other["fileops"]:
+        return "after-file-operation:" + "+".join(sorted(other["fileops"]))
+    if other["n"]:
+        return SIG_CONSUMED[1]
+    return SIG_DROPPED[1] if case["pipelined"] else "non-pipelined-file"
 
 
 def _first_diff(a, b):
@@ -431,6 +616,12 @@ def case_st(draw):
             if k == -1:
                 n = max(n, size // 1500)  # "every read is short": keep the transfer below ~1500 round trips
             case["fault"] = ["r", k, "short", n]
+    if draw(st.integers(0, 2)) == 0:
+        # a server that answers out of order: up to three replies of the session are overtaken by d later ones
+        which = st.integers(0, nreq + 4)
+        if case.get("fault") is not None and case["fault"][1] != -1:
+            which = st.one_of(st.just("fault"), st.just("fault").map(lambda v: v), which)
+        case["reorder"] = draw(st.lists(st.tuples(which, st.sampled_from([1, 1, 2, 3, 5, 8, 40])), min_size=1, max_size=3, unique_by=lambda h: h[0]))
     return case
 
 
@@ -447,6 +638,11 @@ def baseline_cases(quick):
             out.append({"op": "putfo", "size": size, "seed": 7, "confirm": True, "srcread": m})
         out.append({"op": "pwrite", "size": size, "seed": 2, "bufsize": 0, "chunks": [70000, 1, 32769]})
         out.append({"op": "pwrite", "size": size, "seed": 2, "bufsize": -1, "chunks": [100, 8192, 40000]})
+        # fault-free uploads through a file object that is also looked at / repositioned, and with an out-of-order server
+        out.append({"op": "pwrite", "size": size, "seed": 2, "bufsize": -1, "chunks": [100, 8192, 40000, 1], "between": FILE_OPS[:5]})
+        out.append({"op": "pwrite", "size": size, "seed": 2, "bufsize": 0, "chunks": [70000, 1, 32769, 0], "between": FILE_OPS[5:]})
+        out.append({"op": "put", "size": size, "seed": 3, "confirm": True, "reorder": [[1, 2], [3, 40]]})
+        out.append({"op": "get", "size": size, "seed": 5, "prefetch": True, "reorder": [[2, 1], [3, 2]]})
     return out
 
 
@@ -474,6 +670,16 @@ def enumerated(max_chunks):
                     out.append(
                         {"op": "pwrite", "size": size, "seed": n, "fault": ["w", k, "error", 4], "chunks": [CHUNK] * n, "between": ["none"] * (n - 1) + [kind, "setpipe0"]}
                     )
+                # the same failing positions on a file object that is also looked at / repositioned between the write()s
+                for j in range(2):
+                    fop = FILE_OPS[(2 * (3 * n + k) + j + (size & 1)) % len(FILE_OPS)]
+                    out.append({"op": "pwrite", "size": size, "seed": n, "fault": ["w", k, "error", WRITE_CODES[(n + k + j) % 8]], "chunks": [CHUNK] * (n - 1), "between": [fop]})
+                # ... and with a server whose reply to the rejected write is overtaken by d later replies
+                # (d beyond the n-1-k write replies that can still follow only waits for the idle server: one such d)
+                for d in range(1, max(1, n - 1 - k) + 1):
+                    for confirm in (True, False):
+                        out.append({"op": "put", "size": size, "seed": n, "confirm": confirm, "fault": ["w", k, "error", 4], "reorder": [["fault", d]]})
+                    out.append({"op": "pwrite", "size": size, "seed": n, "fault": ["w", k, "error", 3], "chunks": [CHUNK] * (n - 1), "reorder": [["fault", d]]})
             # reads: n data reads (+ the EOF probe, which carries no data)
             for k in range(n):
                 for prefetch in (True, False):
@@ -485,6 +691,12 @@ def enumerated(max_chunks):
                 kind = CB_KINDS[1:][(n + k) % (len(CB_KINDS) - 1)]
                 out.append({"op": "getfo", "size": size, "seed": n, "prefetch": True, "cb": True, "cbreq": [kind], "fault": ["r", k, "error", 4]})
                 out.append({"op": "getfo", "size": size, "seed": n, "prefetch": True, "maxreq": 1, "cb": True, "cbreq": [kind], "fault": ["r", k, "short", 8192]})
+                # replies to prefetched reads overtaken by later ones: the faulted one, and (fault-free) the k-th data reply
+                # (replies 0 and 1 of a getfo session answer its STAT and OPEN)
+                for d in range(1, max(1, n - 1 - k) + 1):
+                    out.append({"op": "getfo", "size": size, "seed": n, "prefetch": True, "fault": ["r", k, "error", 4], "reorder": [["fault", d]]})
+                    out.append({"op": "getfo", "size": size, "seed": n, "prefetch": True, "fault": ["r", k, "short", 8192], "reorder": [["fault", d]]})
+                    out.append({"op": "getfo", "size": size, "seed": n, "prefetch": True, "reorder": [[2 + k, d]]})
     return out
 
 
